@@ -4,3 +4,5 @@
 def register(S):
     S.contract("rpyc/lib/compat.py::BYTES_LITERAL", params={"text": "any"}, inline=True,
                note="one-line wrapper `bytes(text, 'utf8')`; inlined at call sites")
+    S.contract("rpyc/lib/compat.py::get_exc_errno", params={"exc": "any"}, inline=True,
+               note="`exc.errno` if present else `exc[0]`; inlined at call sites")
